@@ -19,6 +19,34 @@ CLAIMED = {
  "C31": ("TLC executes LoopTrees containing Toll nodes (LoopNest TollDown/TollUp); toll read actions, zero writes, zero occupancy replayed into evaluate_mapping",
          "TLC constructs mappings with a Toll between memories or above the compute, per-tensor directions up/down/up_and_down, executes them and charges one read per value crossing in a configured direction; the real model must report exactly these toll reads (scaled by values per action), no toll writes, no toll occupancy and unchanged memory counts/usage.",
          "The mapper clause (Toll never the outermost holder of a shared tensor in returned mappings) is bound separately on recorded mapper results when the mapper harness is present; single-Einsum model part is bounded as C05.", "5/C31"),
+
+ "C01": ("TLC enumerates the whole mapspace of micro-specs (Mapspace.tla); every mapping priced by the real model; recorded mapper optimum validated by TLC (Fronts.tla)",
+         "For generated single-Einsum micro-specs (matmul/matvec/reduce/elementwise, rank bounds 2-8, DRAM + finite inner memory, random keep/may_keep and per-action costs) TLC enumerates every mapping the spec's mapspace contains (storage choices, hierarchy-ordered holder orders, all loop orders, all divisor chains); each is priced by evaluate_mapping; the mapper runs for ENERGY, LATENCY and EDP and TLC decides whether some valid enumerated mapping is strictly better than everything returned.",
+         "Exhaustive only for micro-specs (mapspace <= ~4000 mappings); single Einsum so far (no fusion); pricing oracle is the real model (its correctness is C05/C06). A mapper result better than the enumeration is reported, not a violation.", "5/C01"),
+ "C02": ("Same enumeration as C01; completeness, non-dominance and duplicate-freeness of the recorded front decided by TLC (Fronts.tla over Pareto.tla)",
+         "The mapper runs with ENERGY|LATENCY and ENERGY|LATENCY|RESOURCE_USAGE; objective vectors of every valid enumerated mapping (from the real model) and of every returned mapping are rank-transformed and TLC checks: every candidate weakly dominated by a returned vector; no returned vector strictly dominated by another; no duplicates.",
+         "As C01; usage coordinates are the model's per-memory usage; rank transform (monotone) in the trusted base.", "5/C02"),
+ "C03": ("Returned LoopTrees recorded structurally and executed by TLC (Trace_Mapping.tla = LoopNest machine) with validity invariants",
+         "Every LoopTree the mapper returns on micro-specs (2-3 levels, keep/may_keep, finite sizes, Tolls, four metric sets) is one trace: TLC decides well-formedness, perfect factorisation, exactly-once computation of every iteration point, keep-set satisfaction, and capacity (execution peak and reserved footprint <= size).",
+         "No spatial fanout / loop_bounds / fused-loop limits yet (micro-specs have no spatial dimensions, one Einsum).", "5/C03"),
+ "C04": ("JoinReport (eval_in_detail=False) vs ModelReport (True) vs TLC execution of the same LoopTree (Trace_Mapping.tla)",
+         "Two mapper runs per micro-spec and metric set; rows paired by LoopTree; TLC checks JoinReport = ModelReport for energy and latency exactly and executes the tree as third witness; EDP, usage and every column present in both reports are compared with a float32 allowance.",
+         "Join reports carry few per-Einsum columns when run undetailed; only columns present in both reports are compared.", "5/C04"),
+ "C16": ("Recorded optima of tolerant vs exact mapper runs validated as SetTolerance steps of ConfigLattice.tla; returned mappings executed by Trace_Mapping.tla",
+         "For micro-specs and tolerances {0.01,0.1,0.5} (objective, resource, both) TLC checks opt <= opt' <= (1+t) opt for ENERGY, LATENCY, EDP exactly (rationals) and that every mapping returned under a resource tolerance is valid when executed.",
+         "opt is the zero-tolerance observation (its optimality is C01).", "5/C16"),
+ "C17": ("Four recorded mapper runs per micro-spec validated as a SetMetrics step of ConfigLattice.tla",
+         "TLC checks min energy / min latency / min energy*latency over the ENERGY|LATENCY front against the single-metric optima and EDP-column = energy*latency for every returned row.",
+         "Products formed by the harness in exact rational arithmetic; EDP column compared with float32 allowance.", "5/C17"),
+ "C18": ("Recorded optima of base vs singly-relaxed micro-specs validated as Relax steps of ConfigLattice.tla; superset lemma checked on Mapspace.tla enumerations",
+         "Relaxations: doubled memory size, larger may_keep, smaller keep, imperfect factorisation on; TLC checks opt' <= opt for ENERGY, LATENCY, EDP; role A: relaxed mapspace is a superset of the base mapspace (enumerated by TLC).",
+         "Relaxations needing spatial fanout or several Einsums (loop_bounds, fused-loop limit, min_usage) not exercised yet.", "5/C18"),
+ "C19": ("Recorded optima of base vs scaled micro-specs validated as Scale* steps of ConfigLattice.tla (exact rationals)",
+         "All per-action energies and leak powers times k in {2,4,1/2,3,3/2}: optE' = k optE; all throughputs times k in {2,4,1/2}: optL' = optL/k; workload / Einsum n_instances times k: energy and latency totals times k, validity unchanged (returned mappings executed by Trace_Mapping.tla).",
+         "Throughput scales restricted to powers of two so that results stay exactly representable.", "5/C19"),
+ "C28": ("Base tables recorded from real result rows; every projection computed by TLC (Breakdown.tla) and compared with the Mappings accessors",
+         "For results of the real mapper on 1- and 2-Einsum micro-specs TLC computes all 16 energy, 8 action and 4 latency projections and the usage view from the raw per-Einsum columns; the harness compares with energy()/actions()/latency()/resource_usage() for every flag combination and with the Total columns.",
+         "Derived views of one recorded table; float32 allowance on sums.", "5/C28"),
 }
 NOT_YET = "check not built yet in this round; see DESIGN.md section 5 for the planned TLA+ module"
 
